@@ -852,6 +852,17 @@ class Interp:
             if c is sp.false:
                 break
             if c is not sp.true:
+                if getattr(self, "havoc_loops", False) and not any(isinstance(x, (ast.Return, ast.Yield, ast.YieldFrom)) for x in ast.walk(st)):
+                    # a loop whose trip count depends on symbolic data (an iteration to convergence): what it computes is not
+                    # followed; every name it assigns becomes an unknown real value, and execution goes on after the loop
+                    self.havoc_count = getattr(self, "havoc_count", 0) + 1
+                    names = set()
+                    for x in ast.walk(st):
+                        if isinstance(x, ast.Name) and isinstance(x.ctx, ast.Store):
+                            names.add(x.id)
+                    for nm in sorted(names):
+                        frame.vars[nm] = sp.Symbol(f"loop{self.havoc_count}_{nm}", real=True)
+                    break
                 raise AnalysisError(f"while loop with a symbolic condition in {frame.qual}")
             n += 1
             if n > 20000:
